@@ -89,6 +89,7 @@ def run(ch: Checker) -> None:
                      'the response builders write Content-Encoding / Content-Length into the map they are given', 1)
     ch.rule('C13.6', 'who may declare a content coding for a static response: only okResponse, when it compresses the body itself; serve_static_file hands it a header map without '
                      'Content-Encoding (a coding guessed from the file NAME describes the file, not a transformation the client may undo to get the file back)', 1)
+    ch.rule('C13.7', 'served bytes are the file\'s current bytes: serve_static_file does not obtain content (or headers) from a memoised (lru_cache / cache) function', 1)
     ch.rule('C13.4', 'serve_static_file: open/read inside a try whose OSError handler returns NOT_FOUND_RESPONSE_PKT', 1)
 
     web = prog.class_named('HttpWebServerPlugin')
@@ -171,7 +172,16 @@ def run(ch: Checker) -> None:
             exprs = [it.context_expr for it in n.ast.items] if n.kind == 'with' else [n.ast]  # type: ignore[union-attr]
             for ex in exprs:
                 for c in walk_no_nested(ex):
-                    if isinstance(c, ast.Call) and attr_chain(c.func) in ('open', 'io.open', 'os.open') and c.args:
+                    opener = isinstance(c, ast.Call) and attr_chain(c.func) in ('open', 'io.open', 'os.open') and bool(c.args)
+                    if isinstance(c, ast.Call) and not opener and c.args and isinstance(c.func, (ast.Name, ast.Attribute)):
+                        # a helper of the repository that opens the file it is given (not inlined: decorated, or a vocabulary name)
+                        r_ = prog.resolve_expr(sf.module, c.func) if not (isinstance(c.func, ast.Attribute) and isinstance(c.func.value, ast.Name) and c.func.value.id in ('self', 'cls')) \
+                            else (('func', prog.lookup_method(sf.cls, c.func.attr)) if sf.cls is not None and prog.lookup_method(sf.cls, c.func.attr) is not None else ('unknown',))
+                        if r_[0] == 'func' and r_[1].module.name.startswith('proxy.http.server') and r_[1].params and \
+                                any(isinstance(x, ast.Call) and attr_chain(x.func) in ('open', 'io.open') and x.args and norm(x.args[0]) == r_[1].params[0 if r_[1].cls is None or r_[1].is_static else 1]
+                                    for x in ast.walk(getattr(r_[1], 'orig_node', r_[1].node))):
+                            opener = True
+                    if opener:
                         v = sym.value(c.args[0], idx)
                         k = norm(c) + '|' + norm(v)
                         if k in seen:
@@ -199,6 +209,14 @@ def run(ch: Checker) -> None:
                                  'a failing open()/read() is not answered with NOT_FOUND_RESPONSE_PKT')
     if opens == 0:
         ch.undecided('C13.1c', sf, 'def', 'no open() call found in serve_static_file')
+
+    # C13.7 the file is read for every response
+    from .common import shared_mutable
+    memo = [(c, shared_mutable(prog, sf, c)) for c in walk_no_nested(sf.node) if isinstance(c, ast.Call)]
+    memo = [(c, why) for c, why in memo if why]
+    ch.check(not memo, 'C13.7', sf, 'file read per response', 'nothing serve_static_file calls is memoised',
+             'serve_static_file takes a value from %s: what is sent is what the file contained when it was first read (under a key that does not change when the file is rewritten within the '
+             'same second, or with its timestamp preserved), not what the file contains now' % (memo[0][1] if memo else ''), line=memo[0][0].lineno if memo else None)
 
     # C13.6 no Content-Encoding set by the static handler
     from ..consteval import ConstEval
